@@ -141,7 +141,7 @@ def gen_rej(rng, app, ref, tree, flat, apro):
     h1 = "% RT OSC v" + vers + " savefile"
     h2 = "% verifapp v1.2.3"
     appname = "verifapp"
-    kind = rng.choice(["ok", "ok", "hdr", "hdrver", "app", "appname", "junk", "unmatched", "unmatched", "argtype"])
+    kind = rng.choice(["ok", "ok", "hdr", "hdrver", "app", "appname", "junk", "unmatched", "unmatched", "argtype", "arrlen"])
     nl = rng.choice([0, 1, 2, 3, 5])
     idx = [rng.randrange(len(ref.flat)) for _ in range(nl)]
     seen, lines = set(), []
@@ -166,6 +166,25 @@ def gen_rej(rng, app, ref, tree, flat, apro):
         body.insert(rng.randint(0, len(body)), (rng.choice(["/x $1", "$", "/a [1 2", "/b 'ab'", "/vol 1 2 $"]), "j"))
     elif kind == "unmatched":
         body.insert(rng.randint(0, len(body)), (rng.choice(["/nosuchport 1", "/zz/q true", "/none"]), "u"))
+    elif kind == "arrlen":
+        # an array line with one element more than the port has: the message for index N reaches no port
+        arrs = [i for i, fp in enumerate(ref.flat) if fp.leaf.is_array() and i not in seen and not fp.hard]
+        if arrs:
+            i = rng.choice(arrs)
+            p = ref.flat[i].leaf
+            for _ in range(50):
+                t, arr, vals = line_text(rng, ref, i)
+                if len(vals.split(":")) == p.n:
+                    break
+            if len(vals.split(":")) == p.n:
+                extra_t, extra_v = t[t.index("[") + 1:-1].split(" ")[0], vals.split(":")[0]
+                t = t[:-1] + " " + extra_t + "]"
+                vals = vals + ":" + extra_v
+                body.insert(rng.randint(0, len(body)), (t, "m,%s,%s,%s" % (sc.hx(t.split(" ")[0]), arr, vals)))
+            else:
+                kind = "ok"
+        else:
+            kind = "ok"
     elif kind == "argtype" and ref.flat:
         i = rng.randrange(len(ref.flat))
         p = ref.flat[i].leaf
